@@ -70,7 +70,7 @@ def gen_case(rng, i):
     s["registered"] = bool(rng.integers(5) == 0)
     s.update({"B": np.clip(B, 0, 100), "L": L, "mask": mask, "maskkind": mk, "equal": bool(rng.integers(2)),
               "subsample": [None, 0.5, "fast"][(i // 3) % 3], "lbp": lbp, "ubp": ubp, "custom": custom,
-              "seed": int(rng.integers(1000)), "max_iter": int(rng.integers(4, 16)),
+              "seed": (0 if i % 10 == 7 else int(rng.integers(1000))), "max_iter": int(rng.integers(4, 16)),
               "pass_mask": bool((mk == "random" or rng.integers(2)) and not default_layers),
               "default_layers": default_layers, "mask_as_list": bool(rng.integers(3) == 0)})
     return s
